@@ -247,8 +247,8 @@ def stereo_mol_graph_to_rdmol(
             a_stereo, TrigonalBipyramidal
         ):
             #rd_atom.SetHybridization(Chem.HybridizationType.SP3D)
-            rd_atom.SetChiralTag(Chem.ChiralType.CHI_TRIGONALBIPYRAMIDAL)
             if a_stereo.parity is not None:
+                rd_atom.SetChiralTag(Chem.ChiralType.CHI_TRIGONALBIPYRAMIDAL)
 
                 # In TB1 order (axis from the first to the last neighbor,
                 # the others anticlockwise) the parity is -1, as in the
@@ -297,9 +297,9 @@ def stereo_mol_graph_to_rdmol(
 
 
         elif a_stereo is not None and isinstance(a_stereo, Octahedral):
-            rd_atom.SetChiralTag(Chem.ChiralType.CHI_OCTAHEDRAL)
             rd_atom.SetHybridization(Chem.HybridizationType.SP3D2)
             if a_stereo.parity is not None:
+                rd_atom.SetChiralTag(Chem.ChiralType.CHI_OCTAHEDRAL)
                 # The bonds are not reordered (this would change the
                 # neighbor order of the bonded atoms and invalidate their
                 # stereo). Instead the permutation is chosen that gives this
